@@ -216,8 +216,6 @@ Proof. reflexivity. Qed.
 Lemma scan_app (l1 l2 : list frag) : scan (l1 ++ l2) = scan l1 ++ scan l2.
 Proof. unfold scan. apply flat_map_app. Qed.
 
-Definition scan_len (frs : list frag) : N := N.of_nat (length (scan frs)).
-
 Lemma scan_len_cons (f : frag) (frs : list frag) : frag_wfP f -> scan_len (f :: frs) = f_rows f + scan_len frs.
 Proof.
   intro W. unfold scan_len. rewrite scan_cons, app_length, <- (frag_scan_length f W). lia.
@@ -1053,11 +1051,13 @@ Section SlowPath.
   Proof.
     unfold slow_path. fold S. fold G. destruct (take_per_fragment frs G) as [batches| |] eqn:Hb; try discriminate.
     destruct batches as [|b bs]; [discriminate|].
-    destruct (N.of_nat (length (filter (fun o => existsb (N.eqb o) (concat (b :: bs))) addrs)) <? N.of_nat (length (concat (b :: bs))));
+    pose proof (fun a Ha => slow_returned_iff (b :: bs) a Hb Ha) as I0.
+    set (R := concat (b :: bs)) in *. clearbody R.
+    destruct (N.of_nat (length (filter (fun o => existsb (N.eqb o) R) addrs)) <? N.of_nat (length R));
       [discriminate|].
-    intro H. inversion H; subst. apply filter_ext_in. intros a Ha.
-    pose proof (slow_returned_iff (b :: bs) a Hb Ha) as I. rewrite <- existsb_eqb_iff in I.
-    destruct (existsb (N.eqb a) (concat (b :: bs))); destruct (addr_live frs a); try reflexivity.
+    intro H. injection H as <-. apply filter_ext_in. intros a Ha. cbv beta.
+    pose proof (I0 a Ha) as I. rewrite <- existsb_eqb_iff in I.
+    destruct (existsb (N.eqb a) R); destruct (addr_live frs a); try reflexivity.
     - destruct I as [I _]. specialize (I eq_refl). discriminate I.
     - destruct I as [_ I]. specialize (I eq_refl). discriminate I.
   Qed.
@@ -1097,6 +1097,400 @@ Section SlowPath.
             apply (grp_member f offs o Hf Hg Ho). }
         destruct (N.ltb_spec (N.of_nat (length (filter (fun o => existsb (N.eqb o) R) addrs))) (N.of_nat (length R))); [lia|].
         reflexivity. }
-    rewrite E. f_equal. symmetry. apply slow_path_sound. exact E.
+    rewrite E. f_equal. apply slow_path_sound. exact E.
   Qed.
 End SlowPath.
+
+(* ================= D. do_take_rows, take, take_scan, take by row id ================= *)
+Definition table_wf (frs : list frag) : Prop := Forall frag_wfP frs /\ ids_nodup frs.
+
+Lemma frags_wf_P (frs : list frag) : frags_wf frs = true -> table_wf frs.
+Proof.
+  unfold frags_wf. intro H. apply andb_true_iff in H. destruct H as [H1 H2]. split.
+  - apply Forall_forall. intros f Hf. rewrite forallb_forall in H1. apply frag_wf_P, H1, Hf.
+  - apply dv_nodup_NoDup. exact H2.
+Qed.
+
+Lemma take_spec_ok (frs : list frag) (addrs rows : list N) :
+  take_spec frs addrs = Ok rows -> rows = filter (addr_live frs) addrs.
+Proof. unfold take_spec. destruct (forallb (addr_in_bounds frs) addrs); [|discriminate]. intro H. inversion H. reflexivity. Qed.
+
+Lemma batch_sound (frs : list frag) (start : N) (rest : list N) (s c : bool) (rows : list N) :
+  table_wf frs -> check_row_addrs (start :: rest) = Ok (s, c) ->
+  batch_of frs start (start :: rest) s c = Ok rows -> rows = filter (addr_live frs) (start :: rest).
+Proof.
+  intros [Hwf Hnd] Hc. unfold batch_of. destruct c.
+  - rewrite (contiguous_path_eq frs Hwf start rest s Hc). apply take_spec_ok.
+  - destruct s.
+    + rewrite (take_groups_eq frs Hwf). apply take_spec_ok.
+    + apply slow_path_sound; assumption.
+Qed.
+
+(* whatever do_take_rows returns is exactly the live requested rows, in request order, duplicates kept *)
+Theorem do_take_rows_sound (frs : list frag) (addrs : list N) (wra : bool) (l : list N) :
+  table_wf frs -> do_take_rows frs addrs wra = Ok l -> l = filter (addr_live frs) addrs.
+Proof.
+  intros W H. destruct addrs as [|start rest]; [cbn in H; inversion H; reflexivity|].
+  rewrite do_take_rows_unfold in H.
+  destruct (check_row_addrs (start :: rest)) as [[s c]| |] eqn:Hc; try discriminate H.
+  destruct (batch_of frs start (start :: rest) s c) as [rows| |] eqn:Hb; try discriminate H.
+  destruct (wra && negb (N.of_nat (length rows) =? N.of_nat (length (start :: rest)))); [discriminate H|].
+  inversion H; subst. apply (batch_sound frs start rest s c l W Hc Hb).
+Qed.
+
+Lemma in_bounds_lt (frs : list frag) (a : N) : Forall frag_wfP frs -> addr_in_bounds frs a = true -> a + 1 < two64.
+Proof.
+  intros Hwf H. unfold addr_in_bounds in H. destruct (find_frag frs (addr_frag a)) as [f|] eqn:F; [|discriminate H].
+  destruct (found_wf frs Hwf _ _ F) as [W Hid]. pose proof (wf_id f W) as Hlt. rewrite Hid, addr_frag_div in Hlt.
+  rewrite two32_val in Hlt. change two64 with 18446744073709551616.
+  pose proof (N.div_mod a 4294967296 ltac:(lia)). pose proof (N.mod_lt a 4294967296 ltac:(lia)). lia.
+Qed.
+
+Lemma check_loop_ok : forall (rest : list N) (lst ff : N) (s c : bool),
+  Forall (fun a => a + 1 < two64) (removelast (lst :: rest)) ->
+  exists s' c', check_row_addrs_loop lst ff rest s c = Ok (s', c').
+Proof.
+  induction rest as [|a more IH]; intros lst ff s c H; [eexists; eexists; reflexivity|].
+  change (removelast (lst :: a :: more)) with (lst :: removelast (a :: more)) in H.
+  inversion H as [|? ? Hl H']; subst. cbn [check_row_addrs_loop].
+  destruct (N.leb_spec two64 (lst + 1)); [lia|]. apply IH. exact H'.
+Qed.
+
+Lemma live_in_bounds (frs : list frag) (a : N) : addr_live frs a = true -> addr_in_bounds frs a = true.
+Proof.
+  unfold addr_live, addr_in_bounds. destruct (find_frag frs (addr_frag a)); [|discriminate].
+  intro H. apply andb_true_iff in H. tauto.
+Qed.
+
+(* no panic and no spurious error: every requested address names a physical slot, or belongs to no
+   fragment at all (those are dropped or reported as an error), and only the last may be u64::MAX *)
+Theorem do_take_rows_total (frs : list frag) (addrs : list N) :
+  table_wf frs ->
+  (forall a, In a addrs -> addr_in_bounds frs a = true \/ find_frag frs (addr_frag a) = None) ->
+  (exists a, In a addrs /\ addr_in_bounds frs a = true) ->
+  Forall (fun a => a + 1 < two64) (removelast addrs) ->
+  (do_take_rows frs addrs false = Ok (filter (addr_live frs) addrs) \/
+   (do_take_rows frs addrs false = Err /\ forallb (addr_in_bounds frs) addrs = false)).
+Proof.
+  intros [Hwf Hnd] Hall Hex Hlt. destruct addrs as [|start rest]; [destruct Hex as [a [[] _]]|].
+  rewrite do_take_rows_unfold.
+  destruct (check_loop_ok rest start (addr_frag start) true true Hlt) as [s [c Hc]].
+  cbn [check_row_addrs]. rewrite Hc. cbn [andb].
+  assert (batch_of frs start (start :: rest) s c = take_spec frs (start :: rest) \/
+          batch_of frs start (start :: rest) s c = Ok (filter (addr_live frs) (start :: rest))) as [E|E].
+  { unfold batch_of. destruct c.
+    - left. apply (contiguous_path_eq frs Hwf start rest s). exact Hc.
+    - destruct s; [left; apply (take_groups_eq frs Hwf)|]. right. apply slow_path_total; assumption. }
+  - rewrite E. unfold take_spec. destruct (forallb (addr_in_bounds frs) (start :: rest)); [left | right; split]; reflexivity.
+  - rewrite E. left. reflexivity.
+Qed.
+
+Corollary do_take_rows_in_bounds (frs : list frag) (addrs : list N) :
+  table_wf frs -> addrs <> [] -> forallb (addr_in_bounds frs) addrs = true ->
+  do_take_rows frs addrs false = Ok (filter (addr_live frs) addrs).
+Proof.
+  intros W Hne Hb. rewrite forallb_forall in Hb.
+  destruct (do_take_rows_total frs addrs W) as [E|[_ E]].
+  - intros a Ha. left. apply Hb. exact Ha.
+  - destruct addrs as [|a r]; [congruence|]. exists a. split; [left; reflexivity | apply Hb; left; reflexivity].
+  - apply Forall_forall. intros a Ha. apply (in_bounds_lt frs a (proj1 W)). apply Hb.
+    clear -Ha. induction addrs as [|x xs IH]; [destruct Ha|]. destruct xs as [|y ys]; [destruct Ha|].
+    change (removelast (x :: y :: ys)) with (x :: removelast (y :: ys)) in Ha. destruct Ha as [<-|Ha]; [left; reflexivity | right; apply IH; exact Ha].
+  - exact E.
+  - exfalso. assert (forallb (addr_in_bounds frs) addrs = true) by (apply forallb_forall; exact Hb). congruence.
+Qed.
+
+(* with_row_address: same rows, or an error exactly when a requested row is deleted *)
+Lemma filter_length_lt {A} (p : A -> bool) (l : list A) : forallb p l = false -> (length (filter p l) < length l)%nat.
+Proof.
+  induction l as [|x xs IH]; intro H; [discriminate H|]. cbn [forallb filter] in *.
+  destruct (p x); cbn [andb length] in *.
+  - specialize (IH H). lia.
+  - pose proof (filter_length_le p xs). lia.
+Qed.
+
+Corollary do_take_rows_with_row_address (frs : list frag) (addrs : list N) :
+  table_wf frs -> addrs <> [] -> forallb (addr_in_bounds frs) addrs = true ->
+  do_take_rows frs addrs true = if forallb (addr_live frs) addrs then Ok addrs else Err.
+Proof.
+  intros W Hne Hb. pose proof (do_take_rows_in_bounds frs addrs W Hne Hb) as E.
+  assert (forallb (addr_live frs) addrs = true -> filter (addr_live frs) addrs = addrs) as HF1
+    by (intro L; apply filter_all; apply forallb_forall; exact L).
+  pose proof (filter_length_lt (addr_live frs) addrs) as HF2.
+  remember (filter (addr_live frs) addrs) as F eqn:HF. clear HF.
+  destruct addrs as [|start rest]; [congruence|]. rewrite do_take_rows_unfold in *.
+  destruct (check_row_addrs (start :: rest)) as [[s c]| |]; try discriminate E.
+  destruct (batch_of frs start (start :: rest) s c) as [rows| |]; try discriminate E.
+  cbn [andb] in E. injection E as E'. cbn [andb]. subst rows.
+  destruct (forallb (addr_live frs) (start :: rest)) eqn:L.
+  - rewrite (HF1 eq_refl). rewrite N.eqb_refl. reflexivity.
+  - specialize (HF2 eq_refl).
+    destruct (N.eqb_spec (N.of_nat (length F)) (N.of_nat (length (start :: rest)))); [lia | reflexivity].
+Qed.
+
+(* ---- scan rows are live ---- *)
+Lemma scan_live (frs : list frag) (a : N) : table_wf frs -> In a (scan frs) -> addr_live frs a = true.
+Proof.
+  intros [Hwf Hnd] Hin. unfold scan in Hin. apply in_flat_map in Hin. destruct Hin as [f [Hf Ha]].
+  unfold frag_scan in Ha. apply in_map_iff in Ha. destruct Ha as [p [<- Hp]]. apply filter_In in Hp.
+  destruct Hp as [Hp Hl]. apply in_N_range in Hp.
+  assert (frag_wfP f) as W by (rewrite Forall_forall in Hwf; apply Hwf; exact Hf).
+  pose proof (wf_id f W). pose proof (wf_phys f W).
+  rewrite mk_addr_join by lia. unfold addr_live.
+  rewrite addr_frag_join, addr_off_join by lia. rewrite (find_frag_nodup frs f Hnd Hf).
+  apply andb_true_iff. split; [apply N.ltb_lt; exact Hp | exact Hl].
+Qed.
+
+Lemma find_frag_none (frs : list frag) (id : N) : (forall f, In f frs -> f_id f <> id) -> find_frag frs id = None.
+Proof.
+  unfold find_frag. induction frs as [|g frs IH]; intro H; [reflexivity|]. cbn [find].
+  destruct (N.eqb_spec (f_id g) id) as [E|_]; [exfalso; apply (H g); [left; reflexivity | exact E]|].
+  apply IH. intros f Hf. apply H. right. exact Hf.
+Qed.
+
+Lemma tombstone_no_frag (frs : list frag) : Forall frag_wfP frs -> find_frag frs (addr_frag TOMBSTONE_ROW) = None.
+Proof.
+  intro Hwf. apply find_frag_none. intros f Hf. rewrite Forall_forall in Hwf. pose proof (wf_id f (Hwf f Hf)) as H.
+  change (addr_frag TOMBSTONE_ROW) with 4294967295. rewrite two32_val in H. lia.
+Qed.
+
+Lemma tombstone_not_live (frs : list frag) : Forall frag_wfP frs -> addr_live frs TOMBSTONE_ROW = false.
+Proof. intro Hwf. unfold addr_live. rewrite (tombstone_no_frag frs Hwf). reflexivity. Qed.
+
+(* ---- take(offsets) ---- *)
+Lemma at_offset_in (frs : list frag) (o : N) : in_range frs o = true -> In (at_offset frs o) (scan frs).
+Proof. unfold in_range, scan_len, at_offset. intro H. apply N.ltb_lt in H. apply nth_In. lia. Qed.
+
+Lemma at_offset_oob (frs : list frag) (o : N) : in_range frs o = false -> at_offset frs o = TOMBSTONE_ROW.
+Proof. unfold in_range, scan_len, at_offset. intro H. apply N.ltb_ge in H. apply nth_overflow. lia. Qed.
+
+Lemma filter_live_at_offsets (frs : list frag) (offs : list N) : table_wf frs ->
+  filter (addr_live frs) (map (at_offset frs) offs) = expected_rows frs offs.
+Proof.
+  intro W. unfold expected_rows. induction offs as [|o rest IH]; [reflexivity|]. cbn [map filter].
+  destruct (in_range frs o) eqn:R.
+  - rewrite (scan_live frs _ W (at_offset_in frs o R)). cbn [map]. f_equal. exact IH.
+  - rewrite (at_offset_oob frs o R), (tombstone_not_live frs (proj1 W)). exact IH.
+Qed.
+
+Theorem take_sound (frs : list frag) (offs l : list N) :
+  table_wf frs -> scan_len frs < two64 -> take frs offs = Ok l -> l = expected_rows frs offs.
+Proof.
+  intros W Hov H. unfold take in H. destruct offs as [|o rest]; [inversion H; reflexivity|].
+  rewrite (row_offsets_to_row_addresses_correct frs (o :: rest) (proj1 W) Hov) in H.
+  unfold take_rows_by_addr in H. apply (do_take_rows_sound frs _ false l W) in H.
+  rewrite H. apply (filter_live_at_offsets frs (o :: rest) W).
+Qed.
+
+(* class of requests on which the code panics (debug build): an offset other than the last one is
+   out of range; its tombstone address u64::MAX reaches `last_offset + 1` in check_row_addrs *)
+(* Known_C15_oob_offset_not_last and take_agrees_with_scan are defined in Core/Model_Take.v *)
+
+Lemma removelast_map {A B} (g : A -> B) (l : list A) : removelast (map g l) = map g (removelast l).
+Proof.
+  induction l as [|x xs IH]; [reflexivity|]. destruct xs as [|y ys]; [reflexivity|].
+  change (removelast (map g (x :: y :: ys))) with (g x :: removelast (map g (y :: ys))).
+  change (removelast (x :: y :: ys)) with (x :: removelast (y :: ys)). cbn [map]. f_equal. exact IH.
+Qed.
+
+Theorem take_outside_known_class (frs : list frag) (offs : list N) :
+  table_wf frs -> scan_len frs < two64 -> Known_C15_oob_offset_not_last frs offs = false ->
+  take_agrees_with_scan frs offs.
+Proof.
+  intros W Hov K. unfold take_agrees_with_scan, take.
+  destruct offs as [|o0 rest0] eqn:Eoffs; [left; reflexivity|]. rewrite <- Eoffs in *.
+  assert (offs <> []) as Hne by (rewrite Eoffs; discriminate).
+  rewrite (row_offsets_to_row_addresses_correct frs offs (proj1 W) Hov). unfold take_rows_by_addr.
+  fold (at_offset frs). rewrite <- (filter_live_at_offsets frs offs W).
+  replace (match offs with [] => Ok [] | _ :: _ => do_take_rows frs (map (at_offset frs) offs) false end)
+    with (do_take_rows frs (map (at_offset frs) offs) false) by (rewrite Eoffs; reflexivity).
+  unfold Known_C15_oob_offset_not_last in K.
+  assert (forall o, In o (removelast offs) -> in_range frs o = true) as Hinit.
+  { intros o Ho. destruct (in_range frs o) eqn:R; [reflexivity|]. exfalso.
+    assert (existsb (fun o => negb (in_range frs o)) (removelast offs) = true) as C
+      by (apply existsb_exists; exists o; split; [exact Ho | rewrite R; reflexivity]). congruence. }
+  destruct (exists_last Hne) as [init [lst Elast]]. rewrite Elast in Hinit. rewrite removelast_last in Hinit.
+  destruct (in_range frs lst) eqn:Rl.
+  - (* every offset in range *)
+    left. apply do_take_rows_in_bounds; [exact W | rewrite Eoffs; discriminate|].
+    apply forallb_forall. intros a Ha. apply in_map_iff in Ha. destruct Ha as [o [<- Ho]].
+    apply live_in_bounds, (scan_live frs _ W), at_offset_in.
+    rewrite Elast in Ho. apply in_app_or in Ho. destruct Ho as [Ho|[<-|[]]]; [apply Hinit; exact Ho | exact Rl].
+  - destruct init as [|i0 init'].
+    + (* the single offset is out of range: the tombstone's fragment does not exist *)
+      right. cbn [app] in Elast. rewrite Elast. cbn [map]. rewrite (at_offset_oob frs lst Rl). split.
+      * rewrite do_take_rows_unfold. cbn [check_row_addrs check_row_addrs_loop]. unfold batch_of.
+        rewrite (tombstone_no_frag frs (proj1 W)). reflexivity.
+      * cbn [existsb]. rewrite Rl. reflexivity.
+    + destruct (do_take_rows_total frs (map (at_offset frs) offs) W) as [E|[E Hb]].
+      * intros a Ha. apply in_map_iff in Ha. destruct Ha as [o [<- Ho]].
+        rewrite Elast in Ho. apply in_app_or in Ho. destruct Ho as [Ho|[<-|[]]].
+        -- left. apply live_in_bounds, (scan_live frs _ W), at_offset_in, Hinit, Ho.
+        -- right. rewrite (at_offset_oob frs lst Rl). apply tombstone_no_frag, W.
+      * exists (at_offset frs i0). split.
+        -- apply in_map. rewrite Elast. left. reflexivity.
+        -- apply live_in_bounds, (scan_live frs _ W), at_offset_in, Hinit. left. reflexivity.
+      * rewrite removelast_map, Elast, removelast_last. apply Forall_forall. intros a Ha.
+        apply in_map_iff in Ha. destruct Ha as [o [<- Ho]]. apply (in_bounds_lt frs _ (proj1 W)).
+        apply live_in_bounds, (scan_live frs _ W), at_offset_in, Hinit, Ho.
+      * left. exact E.
+      * right. split; [exact E|]. apply existsb_exists. exists lst. split; [rewrite Elast; apply in_or_app; right; left; reflexivity|].
+        rewrite Rl. reflexivity.
+Qed.
+
+Corollary take_in_range (frs : list frag) (offs : list N) :
+  table_wf frs -> scan_len frs < two64 -> forallb (in_range frs) offs = true ->
+  take frs offs = Ok (map (at_offset frs) offs).
+Proof.
+  intros W Hov H. rewrite forallb_forall in H.
+  assert (expected_rows frs offs = map (at_offset frs) offs) as <- by (unfold expected_rows; rewrite filter_all; [reflexivity | exact H]).
+  assert (forall l, (forall o, In o l -> in_range frs o = true) -> existsb (fun o => negb (in_range frs o)) l = false) as Hno.
+  { intros l Hl. apply not_true_is_false. intro C. apply existsb_exists in C. destruct C as [o [Ho C]]. rewrite (Hl o Ho) in C. discriminate C. }
+  destruct (take_outside_known_class frs offs W Hov) as [E|[_ E]].
+  - unfold Known_C15_oob_offset_not_last. apply Hno. intros o Ho. apply H.
+    clear -Ho. induction offs as [|x xs IH]; [destruct Ho|]. destruct xs as [|y ys]; [destruct Ho|].
+    change (removelast (x :: y :: ys)) with (x :: removelast (y :: ys)) in Ho. destruct Ho as [<-|Ho]; [left; reflexivity | right; apply IH; exact Ho].
+  - exact E.
+  - rewrite (Hno offs H) in E. discriminate E.
+Qed.
+
+(* take_scan: one batch per range; the batch of [s, e) is scan[s], .., scan[e-1] *)
+Theorem take_scan_correct (frs : list frag) (ranges : list (N * N)) :
+  table_wf frs -> scan_len frs < two64 -> Forall (fun r => snd r <= scan_len frs) ranges ->
+  take_scan frs ranges = map (fun r => Ok (map (at_offset frs) (N_span (fst r) (snd r)))) ranges.
+Proof.
+  intros W Hov H. unfold take_scan. apply map_ext_in. intros r Hr. rewrite Forall_forall in H. specialize (H r Hr).
+  apply take_in_range; [exact W | exact Hov|]. apply forallb_forall. intros o Ho. apply in_N_span in Ho.
+  unfold in_range. apply N.ltb_lt. lia.
+Qed.
+
+(* ---- take by row id ---- *)
+Lemma get_row_addrs_in (get : N -> option N) (ids : list N) (a : N) :
+  In a (get_row_addrs (Some get) ids) <-> exists id, In id ids /\ get id = Some a.
+Proof.
+  unfold get_row_addrs. rewrite in_flat_map. split.
+  - intros [id [Hid Ha]]. exists id. split; [exact Hid|]. destruct (get id) as [b|]; [|destruct Ha]. destruct Ha as [->|[]]. reflexivity.
+  - intros [id [Hid Hg]]. exists id. split; [exact Hid|]. rewrite Hg. left. reflexivity.
+Qed.
+
+Section RowIds.
+  Variable frs : list frag.
+  Hypothesis W : table_wf frs.
+  (* the row id index (RowIdIndex::get, property C34) as a function, with what C34 guarantees of it:
+     it answers only with addresses of rows a scan shows *)
+  Variable get : N -> option N.
+  Hypothesis get_sound : forall id a, get id = Some a -> In a (scan frs).
+
+  Theorem take_rows_by_id_correct (ids : list N) :
+    take_rows_by_id (Some get) frs ids false = Ok (get_row_addrs (Some get) ids).
+  Proof.
+    unfold take_rows_by_id. set (addrs := get_row_addrs (Some get) ids).
+    assert (forall a, In a addrs -> addr_live frs a = true) as Hl.
+    { intros a Ha. apply get_row_addrs_in in Ha. destruct Ha as [id [_ Hg]]. apply (scan_live frs a W), (get_sound id a Hg). }
+    destruct addrs as [|a0 r] eqn:E; [reflexivity|]. rewrite <- E in *.
+    rewrite do_take_rows_in_bounds; [f_equal; apply filter_all; exact Hl | exact W | rewrite E; discriminate|].
+    apply forallb_forall. intros a Ha. apply live_in_bounds, Hl, Ha.
+  Qed.
+End RowIds.
+
+(* without stable row ids the row id is the address: each row a scan shows is returned for its own
+   _rowid / _rowaddr, and nothing is returned for a deleted or absent one *)
+Theorem take_by_scan_address (frs : list frag) (addrs : list N) :
+  table_wf frs -> addrs <> [] -> Forall (fun a => In a (scan frs)) addrs ->
+  take_rows_by_id None frs addrs false = Ok addrs /\ take_rows_by_id None frs addrs true = Ok addrs.
+Proof.
+  intros W Hne H. rewrite Forall_forall in H. unfold take_rows_by_id, get_row_addrs.
+  assert (forallb (addr_live frs) addrs = true) as Hl by (apply forallb_forall; intros a Ha; apply (scan_live frs a W), H, Ha).
+  assert (forallb (addr_in_bounds frs) addrs = true) as Hb.
+  { apply forallb_forall. intros a Ha. rewrite forallb_forall in Hl. apply live_in_bounds, Hl, Ha. }
+  split.
+  - rewrite do_take_rows_in_bounds by assumption. f_equal. apply filter_all. rewrite forallb_forall in Hl. exact Hl.
+  - rewrite do_take_rows_with_row_address by assumption. rewrite Hl. reflexivity.
+Qed.
+
+(* ================= E. statements over the executable well-formedness check ================= *)
+Lemma offsets_to_addresses_wf (frs : list frag) (offs : list N) :
+  frags_wf frs = true -> scan_len frs < two64 ->
+  row_offsets_to_row_addresses frs offs = Ok (map (at_offset frs) offs).
+Proof. intros H Hov. apply row_offsets_to_row_addresses_correct; [apply (frags_wf_P frs H) | exact Hov]. Qed.
+
+Lemma take_rows_sound_wf (frs : list frag) (addrs : list N) (wra : bool) (l : list N) :
+  frags_wf frs = true -> do_take_rows frs addrs wra = Ok l -> l = filter (addr_live frs) addrs.
+Proof. intro H. apply do_take_rows_sound, frags_wf_P, H. Qed.
+
+Lemma take_rows_total_wf (frs : list frag) (addrs : list N) :
+  frags_wf frs = true -> addrs <> [] -> forallb (addr_in_bounds frs) addrs = true ->
+  do_take_rows frs addrs false = Ok (filter (addr_live frs) addrs) /\
+  do_take_rows frs addrs true = (if forallb (addr_live frs) addrs then Ok addrs else Err).
+Proof.
+  intros H Hne Hb. split; [apply do_take_rows_in_bounds | apply do_take_rows_with_row_address];
+    try assumption; apply frags_wf_P, H.
+Qed.
+
+Lemma take_rows_no_panic_wf (frs : list frag) (addrs : list N) :
+  frags_wf frs = true ->
+  (forall a, In a addrs -> addr_in_bounds frs a = true \/ find_frag frs (addr_frag a) = None) ->
+  (exists a, In a addrs /\ addr_in_bounds frs a = true) ->
+  Forall (fun a => a + 1 < two64) (removelast addrs) ->
+  (do_take_rows frs addrs false = Ok (filter (addr_live frs) addrs) \/
+   (do_take_rows frs addrs false = Err /\ forallb (addr_in_bounds frs) addrs = false)).
+Proof. intro H. apply do_take_rows_total, frags_wf_P, H. Qed.
+
+Lemma take_by_offset_wf (frs : list frag) (offs : list N) :
+  frags_wf frs = true -> scan_len frs < two64 ->
+  (forall l, take frs offs = Ok l -> l = expected_rows frs offs) /\
+  (Known_C15_oob_offset_not_last frs offs = false -> take_agrees_with_scan frs offs) /\
+  (forallb (in_range frs) offs = true -> take frs offs = Ok (map (at_offset frs) offs)).
+Proof.
+  intros H Hov. pose proof (frags_wf_P frs H) as W. repeat split.
+  - intros l Hl. apply (take_sound frs offs l W Hov Hl).
+  - apply (take_outside_known_class frs offs W Hov).
+  - apply (take_in_range frs offs W Hov).
+Qed.
+
+Definition refuting_table : list frag := [{| f_id := 0; f_phys := 3; f_del := None |}].
+
+Lemma oob_offset_not_last_refuted :
+  exists frs offs, frags_wf frs = true /\ scan_len frs < two64 /\
+    Known_C15_oob_offset_not_last frs offs = true /\ ~ take_agrees_with_scan frs offs.
+Proof.
+  exists refuting_table, [3; 0]. repeat split; try (vm_compute; reflexivity).
+  assert (take refuting_table [3; 0] = Panic) as E by (vm_compute; reflexivity).
+  unfold take_agrees_with_scan. rewrite E. intros [C|[C _]]; discriminate C.
+Qed.
+
+Lemma take_scan_wf (frs : list frag) (ranges : list (N * N)) :
+  frags_wf frs = true -> scan_len frs < two64 -> Forall (fun r => snd r <= scan_len frs) ranges ->
+  take_scan frs ranges = map (fun r => Ok (map (at_offset frs) (N_span (fst r) (snd r)))) ranges.
+Proof. intros H. apply take_scan_correct, frags_wf_P, H. Qed.
+
+Lemma take_by_row_id_wf (frs : list frag) (get : N -> option N) (ids : list N) :
+  frags_wf frs = true -> (forall id a, get id = Some a -> In a (scan frs)) ->
+  take_rows_by_id (Some get) frs ids false = Ok (get_row_addrs (Some get) ids) /\
+  (forall a, In a (get_row_addrs (Some get) ids) <-> exists id, In id ids /\ get id = Some a).
+Proof.
+  intros H Hg. split; [apply take_rows_by_id_correct; [apply frags_wf_P, H | exact Hg]|].
+  intro a. apply get_row_addrs_in.
+Qed.
+
+Lemma scan_rows_resolve_wf (frs : list frag) :
+  frags_wf frs = true -> scan_len frs < two64 ->
+  (forall a, In a (scan frs) -> take_rows_by_id None frs [a] false = Ok [a] /\ take_rows_by_id None frs [a] true = Ok [a]) /\
+  (forall o, o < scan_len frs -> take frs [o] = Ok [at_offset frs o] /\ In (at_offset frs o) (scan frs)) /\
+  (forall a, addr_in_bounds frs a = true -> ~ In a (scan frs) -> take_rows_by_id None frs [a] false = Ok []).
+Proof.
+  intros H Hov. pose proof (frags_wf_P frs H) as W. repeat split.
+  - apply (take_by_scan_address frs [a] W); [discriminate | constructor; [assumption | constructor]].
+  - apply (take_by_scan_address frs [a] W); [discriminate | constructor; [assumption | constructor]].
+  - apply (take_in_range frs [o] W Hov). cbn [forallb]. unfold in_range. apply andb_true_iff. split; [apply N.ltb_lt; assumption | reflexivity].
+  - apply at_offset_in. unfold in_range. apply N.ltb_lt. assumption.
+  - intros a Hb Hnot. unfold take_rows_by_id, get_row_addrs.
+    rewrite (do_take_rows_in_bounds frs [a] W); [|discriminate | cbn [forallb]; rewrite Hb; reflexivity].
+    cbn [filter]. destruct (addr_live frs a) eqn:L; [|reflexivity]. exfalso. apply Hnot.
+    (* a live address is in the scan *)
+    unfold addr_live in L. destruct (find_frag frs (addr_frag a)) as [f|] eqn:F; [|discriminate L].
+    apply andb_true_iff in L. destruct L as [L1 L2]. apply N.ltb_lt in L1.
+    destruct (find_frag_some _ _ _ F) as [Hf Hid].
+    unfold scan. apply in_flat_map. exists f. split; [exact Hf|]. unfold frag_scan.
+    rewrite <- (found_addr frs (proj1 W) a f F). apply in_map. apply filter_In. split; [apply in_N_range; exact L1 | exact L2].
+Qed.
